@@ -5,6 +5,8 @@
 (* of positions: the whole grid (row-major, as stack(x,y) does), a cropped *)
 (* sub-grid, an explicit point list, or a pixel subset given by flat       *)
 (* indices.  The forward calculation is a function of position only, so    *)
+(* (a point list may also mix two detector heights: "points3", positions    *)
+(* then carry the height index as a third entry).                           *)
 (* Calc(view)[k] depends on view[k] alone and selecting commutes with      *)
 (* calculating.  `pos` is the exact position of every element of the view. *)
 (***************************************************************************)
@@ -14,7 +16,7 @@ CONSTANTS MaxN
 
 VARIABLES grid,   \* [nx, ny, sx, sy, ox, oy]
           view,   \* [kind, ...]
-          pos     \* sequence of <<X, Y>> lattice positions of the view's elements, in order
+          pos     \* sequence of <<X, Y>> (or <<X, Y, H>>) lattice positions of the view's elements, in order
 
 vars == <<grid, view, pos>>
 
@@ -34,11 +36,20 @@ Views(g) ==
    \cup {[kind |-> "crop", lo |-> lo, sh |-> sh] :
             lo \in (0..g.nx - 1) \X (0..g.ny - 1), sh \in (1..g.nx) \X (1..g.ny)}
    \cup {[kind |-> "points", order |-> o] : o \in {"same", "reversed", "every_other"}}
+   \cup {[kind |-> "points3", order |-> o] : o \in {"stacked", "interleaved", "upper_first"}}
+
+\* the same lattice at two heights H = 0, 1 in one point list
+Lift(s, h) == [k \in DOMAIN s |-> <<s[k][1], s[k][2], h>>]
+Interleave(a, b) == [k \in 1..(2 * Len(a)) |-> IF Mod(k, 2) = 1 THEN a[(k + 1) \div 2] ELSE b[k \div 2]]
+TwoHeights(g, o) == IF o = "stacked" THEN Lift(GridSeq(g), 0) \o Lift(GridSeq(g), 1)
+                    ELSE IF o = "upper_first" THEN Lift(GridSeq(g), 1) \o Lift(GridSeq(g), 0)
+                    ELSE Interleave(Lift(GridSeq(g), 0), Lift(GridSeq(g), 1))
 
 ViewOK(g, v) == v.kind # "crop" \/ (v.lo[1] + v.sh[1] <= g.nx /\ v.lo[2] + v.sh[2] <= g.ny)
 
 PosFor(g, v) == IF v.kind = "grid" THEN GridSeq(g)
                 ELSE IF v.kind = "crop" THEN CropSeq(g, v.lo, v.sh)
+                ELSE IF v.kind = "points3" THEN TwoHeights(g, v.order)
                 ELSE IF v.order = "same" THEN GridSeq(g)
                 ELSE IF v.order = "reversed" THEN Reverse(GridSeq(g))
                 ELSE EveryOther(GridSeq(g))
@@ -51,7 +62,9 @@ Spec == Init /\ [][Next]_vars
 
 (* laws *)
 Range(s) == {s[k] : k \in DOMAIN s}
-ViewWithinGrid == Range(pos) \subseteq Range(GridSeq(grid))
+ViewWithinGrid == IF view.kind = "points3"
+                  THEN Range(pos) = Range(Lift(GridSeq(grid), 0)) \cup Range(Lift(GridSeq(grid), 1))
+                  ELSE Range(pos) \subseteq Range(GridSeq(grid))
 GridHasDistinctPositions == Cardinality(Range(GridSeq(grid))) = grid.nx * grid.ny
 CropIsSubgrid == view.kind = "crop" =>
    \A k \in DOMAIN pos : \E i \in 0..grid.nx - 1, j \in 0..grid.ny - 1 :
